@@ -3,6 +3,7 @@ CONSTANTS
   MaxExt = 1000
   MaxOps = 1000000
   Mode = "own"
+  NP = 6
 INVARIANTS DeriveIsPure OneOwner
 POSTCONDITION TraceAccepted
 CHECK_DEADLOCK FALSE
